@@ -20,10 +20,36 @@ def sel_bits(n):
     return 1
 
 
+SHR_KIND_NAME = {"SQueue": ("queue", "q"), "SStack": ("stack", "st"), "SUart": ("uart", "u"), "SKbd": ("kbd", "k"), "SBarrier": ("barrier", "br"),
+                 "SLfsr8": ("lfsr8", "lfsr8"), "SChannel": ("channel", "ch")}
+
+
+def shr_num(a, kind):
+    name = SHR_KIND_NAME[kind][0]
+    return sum(1 for x in (a.get("shared") or "").split(",") if ":" in x and x.split(":")[0] == name)
+
+
+def shr_bits(a, kind):
+    n = shr_num(a, kind)
+    if n == 0:
+        return 0
+    b = 1
+    while (1 << b) < n:
+        b += 1
+    return b
+
+
+def shared_kinds(a):
+    """the kind names of Shared_constraints, in order (entries without a ':' are not counted by Shared_num)"""
+    return [x.split(":")[0] for x in (a.get("shared") or "").split(",") if ":" in x]
+
+
 def weval(w, a, nops):
     t = w[0]
     if t == "C":
         return w[1]
+    if t == "A" and w[1].startswith("(AShr "):
+        return shr_bits(a, w[1][6:-1])
     if t == "A":
         return {"AOp": sel_bits(nops), "AR": a["R"], "ARsize": a["rsize"], "AInb": sel_bits(a["N"]),
                 "AOutb": sel_bits(a["M"]), "AO": a["O"], "AL": a["L"], "AMaxOL": max(a["O"], a["L"])}[w[1]]
@@ -35,6 +61,10 @@ def weval(w, a, nops):
 
 
 def operand_pool(kind, width, a, rnd):
+    if kind.startswith("(KShr "):
+        k = kind[6:-1]
+        short, n = SHR_KIND_NAME[k][1], shr_num(a, k)
+        return ["%s0" % short, "%s%d" % (short, max(n - 1, 0)), "%s%d" % (short, n // 2), "%s%d" % (short, n), short, "%s01" % short, "r0", "%s%d" % (short, n + 7)]
     if kind == "KReg":
         n = 1 << a["R"]
         return ["r0", "r%d" % (n - 1), "r%d" % (n // 2), "r%d" % n, "r", "r01", "x1", "i0"]
@@ -94,9 +124,10 @@ def gen_lines(layouts, ops, a, rnd, per_op):
 
 
 def arch_term(a, opnames):
-    return "(mkArch %d %d %s %s %d %d %s %d %s)" % (
+    return "(mkArch %d %d %s %s %d %d %s %d %s %s)" % (
         a["rsize"], a["R"], C.cq_N(a["N"]), C.cq_N(a["M"]), a["L"], a["O"],
-        C.cq_list([C.cq_string(n) for n in opnames]), a.get("wordsize", 0), MODES[a["mode"]])
+        C.cq_list([C.cq_string(n) for n in opnames]), a.get("wordsize", 0), MODES[a["mode"]],
+        C.cq_list([C.cq_string(n) for n in shared_kinds(a)]))
 
 
 def coq_ok_token(t):
@@ -193,8 +224,13 @@ def make_archs(rnd, layouts, allops, tier):
     shared = ",".join(["queue:4", "queue:4", "queue:8", "stack:4", "stack:4", "uart:a", "uart:b", "uart:c", "kbd:a", "kbd:b",
                        "barrier:a", "barrier:b", "barrier:c", "lfsr8:a", "lfsr8:b", "channel:a", "channel:b", "channel:c", "channel:d", "channel:e"])
     so_ops = [o for o in allops if o not in layouts and not o.startswith("rsets")]
-    archs.append(dict(rsize=8, R=2, N=1, M=1, L=2, O=4, mode="ha", wordsize=0, shared=shared, ops=sorted(set(so_ops) | {"rset", "nop", "j"}), modelled=False))
-    archs.append(dict(rsize=16, R=3, N=2, M=2, L=2, O=9, mode="ha", wordsize=0, shared=shared, ops=sorted(set(so_ops) | {"jz", "nop", "cpy"}), modelled=False))
+    so_all = [o for o in ("hit", "k2r", "lfsr82r", "q2r", "r2q", "r2t", "r2u", "t2r", "u2r", "wrd", "wwr") if o in allops]
+    for ar in (dict(rsize=8, R=2, N=1, M=1, L=2, O=4, mode="ha", wordsize=0, shared=shared, ops=sorted(set(so_ops + so_all) | {"rset", "nop", "j"})),
+               dict(rsize=16, R=3, N=2, M=2, L=2, O=9, mode="ha", wordsize=0, shared=shared, ops=sorted(set(so_ops + so_all) | {"jz", "nop", "cpy"})),
+               dict(rsize=8, R=1, N=0, M=0, L=0, O=3, mode="ha", wordsize=0, shared="queue:4,stack:4,channel:a", ops=sorted(set(so_all) | {"nop"})),
+               dict(rsize=8, R=1, N=0, M=0, L=0, O=3, mode="ha", wordsize=0, shared="", ops=sorted(set(so_all) | {"nop"}))):
+        ar["modelled"] = all(o in layouts for o in ar["ops"])
+        archs.append(ar)
     return archs
 
 
@@ -327,7 +363,7 @@ Print Assumptions current_tree_rejects_unfit.
             r = lines[k] if code < 8 else {"line": "(architecture sizing)"}
             mism.append((code, rs["arch"], r))
     cov = res.coverage
-    cov["rule"] = ("architectures at boundary widths x opcodes (82 modelled layouts + opaque ones) x operand tuples: mostly-valid "
+    cov["rule"] = ("architectures at boundary widths x opcodes (93 modelled layouts, shared-object opcodes included) x operand tuples: mostly-valid "
                    "stream, per-field boundary stream (first out-of-range value of each field, literals in decimal/hex/binary, "
                    "malformed tokens), arity errors; non-trivial = accepted instruction with at least one operand; distinct by hash")
     cov["architectures"] = len(archs)
